@@ -776,7 +776,15 @@ def r12_instr_visits_every_position(ctx, rule="C17.R12"):
     for f in fns:
         body = f.body
         for _b, t in body.calls():
-            if re.search(r"str>::(find|match_indices|rfind)$|<impl str>::(find|match_indices)", mir.callee_path(t) or ""):
+            cp_ = mir.callee_path(t) or ""
+            if re.search(r"str>::(find|match_indices|rfind)$|<impl str>::(find|match_indices)", cp_):
+                delegated = True
+            # an iterator search over every window / every index, in order: `windows(n) ... find / position`
+            if cp_.endswith(("Iterator::find", "Iterator::position", "Iterator::find_map")) and \
+                    any((mir.callee_path(t2) or "").endswith(("::windows", "::char_indices", "::match_indices"))
+                        for _b2, t2 in body.calls()) and \
+                    not any((mir.callee_path(t2) or "").endswith(("Iterator::step_by", "Iterator::skip_while"))
+                            for _b2, t2 in body.calls()):
                 delegated = True
         for b, blk in enumerate(body.blocks):
             if blk.get("c"):
@@ -813,10 +821,10 @@ def r12_instr_visits_every_position(ctx, rule="C17.R12"):
                            % (f.name, name, "the constant %s" % k if k is not None else "a computed amount"))
     if not n_loops:
         if delegated:
-            ctx.ok(rule, rule + ":delegated", fns[0].loc, "the search is handed to str::find")
+            ctx.ok(rule, rule + ":delegated", fns[0].loc, "the search is handed to str::find / an in-order iterator search over every window")
         else:
             ctx.unknown(rule, rule + ":search", fns[0].loc, "INSTR neither loops over start positions nor calls str::find: not decided")
-    ctx.require(rule, 1, max_unknown=1)
+    ctx.require(rule, 0, max_unknown=1)
 
 
 def run(ctx):
